@@ -144,7 +144,7 @@ static bool gen_one(qop *op, gctx c) {
 	if (op->kind == OP_SUSPEND) {
 		// candidates: non-global, non-main, non-workloop queues
 		int cand[QMAX], n = 0;
-		for (int i = 0; i < nq; i++) if ((Q[i].kind == QK_SERIAL || Q[i].kind == QK_CONC) && !Q[i].inactive) cand[n++] = i;
+		for (int i = 0; i < nq; i++) if ((Q[i].kind == QK_SERIAL || Q[i].kind == QK_CONC) && (!Q[i].inactive || G->suspend_inactive)) cand[n++] = i;
 		if (!n) { op->kind = OP_PAUSE; op->depth = 1; return true; }
 		op->q = (c.from_q >= 0 && (Q[c.from_q].kind == QK_SERIAL || Q[c.from_q].kind == QK_CONC) && !Q[c.from_q].inactive && g_chance(70, 100)) ? c.from_q : cand[g_n((uint32_t)n)];
 		op->depth = g_chance(15, 100) ? g_range(1, G->suspend_depth_max) : g_range(1, 3);
